@@ -85,7 +85,7 @@ for pid, name, kind, outcome, rnd, sig, key, _first in items:
 out.append("")
 out.append("## What the misses changed\n")
 out.append("* **C15** was the important one: all four seeded index defects passed at first. The comparison of user-defined indexes with a rebuild called `rebuild_indexes(\"t0\")` while the registry stores the table as `T0`, so the rebuild was a no-op and the comparison vacuous for `CREATE INDEX` indexes (the PRIMARY KEY / UNIQUE hash-index part was effective). Fixed; the unchanged tree stayed silent and all index mutants are detected.")
-out.append("* Generator gaps closed because a seeded change (or a probe of the unchanged tree by a seeding agent) pointed at them: REPLACE and ON DUPLICATE KEY UPDATE (found REPLACE without index maintenance, fixed; upserts without constraint validation, recorded), composite UNIQUE in non-table column order (found a real defect: such constraints were never enforced, fixed), self-referencing and double FOREIGN KEYs (two real defects recorded), `pk = 2.0` and `WHERE 1` in UPDATE/DELETE (two real defects fixed), IN-subquery through the index with extra WHERE conjuncts (real defect fixed), multi-chunk parallel hash build, view aliases, literal forms with multi-byte bodies, ENUM/SET prefixes.")
+out.append("* Generator gaps closed because a seeded change (or a probe of the unchanged tree by a seeding agent) pointed at them: REPLACE and ON DUPLICATE KEY UPDATE (found REPLACE without index maintenance, fixed; upserts without constraint validation, recorded and repaired in round 5), composite UNIQUE in non-table column order (found a real defect: such constraints were never enforced, fixed), self-referencing and double FOREIGN KEYs (two real defects recorded, repaired in round 5), `pk = 2.0` and `WHERE 1` in UPDATE/DELETE (two real defects fixed), IN-subquery through the index with extra WHERE conjuncts (real defect fixed), multi-chunk parallel hash build, view aliases, literal forms with multi-byte bodies, ENUM/SET prefixes.")
 out.append("* Masking by open findings was the largest single cause of misses after round 3 (a second defect in the region of a recorded one has the same signature). Rather than splitting signatures further, the masking findings were repaired in /repo where that was small and safe (round 5); the three C03 changes and the self-reference change of C12 are detected since.\n* Misses that remain: shapes deliberately outside the generated domain (composite FOREIGN KEYs), a stack-depth condition that the bounded inputs cannot reach in this build profile, and two changes that only the neighbouring property's check sees (see cross results).")
 open(os.path.join(ROOT, "SENSITIVITY.md"), "w").write("\n".join(out) + "\n")
 print(f"{len(items)} changes, {det} detected")
